@@ -25,6 +25,9 @@ type PDR struct {
 	OHR     bool     `json:"ohr,omitempty"` // Outer Header Removal GTP-U/UDP/IPv4
 	FAR     uint32   `json:"far"`
 	QERs    []uint32 `json:"qers,omitempty"`
+	// Perm != 0 permutes the order of the member IEs of the PDR and of its PDI on the wire
+	// (IE order inside a grouped IE carries no meaning; QER IDs keep their relative order).
+	Perm uint32 `json:"perm,omitempty"`
 }
 
 // Apply-action bits (3GPP TS 29.244 8.2.26).
@@ -53,6 +56,7 @@ type FAR struct {
 	Peer      string `json:"peer,omitempty"`
 	EndMarker bool   `json:"sndem,omitempty"` // PFCPSMReq-Flags SNDEM inside Update Forwarding Parameters
 	HasSMReq  bool   `json:"smreq,omitempty"` // PFCPSMReq-Flags IE present (flag may be clear)
+	Perm      uint32 `json:"perm,omitempty"`  // see PDR.Perm
 }
 
 // QER is an abstract QoS enforcement rule (rates in kbps as on the wire).
@@ -67,6 +71,7 @@ type QER struct {
 	GBRDL  uint64 `json:"gbdl"`
 	NoMBR  bool   `json:"nombr,omitempty"`
 	NoGBR  bool   `json:"nogbr,omitempty"`
+	Perm   uint32 `json:"perm,omitempty"` // see PDR.Perm
 }
 
 // PFD is one application's provisioned flow descriptions.
